@@ -124,6 +124,9 @@ Proof. exact head_gate_proof. Qed.
     cancelled by the client (RST_STREAM), timed out, retried — no request is ever attached to a
     connection that still owes bytes of another response: no byte of response i can reach
     request j <> i through a reused backend connection. *)
+(* (the same holds for the request side: a connection whose request was not completely sent — the
+    backend answered on the head while the body was still arriving, then the client cancelled or the
+    response ended — is not parked either; [park_rules_needed] below shows both rules are needed) *)
 Theorem no_cross_request_bytes :
   forall (redir : option N) (h2 : bool) (history : list input) (i : input),
     let x := run_st redir (fresh, init_conn h2) history in
@@ -151,6 +154,22 @@ Theorem interim_final_and_close_in_one_segment :
       existsb is_abort (evs redir x (IFrontWrite true)) = false /\
       s_origin (fst y) = OBackend /\ is_terminated (s_phase (fst y)) = true /\ s_clean (fst y) = true)).
 Proof. exact burst_proof. Qed.
+
+(** Without the request-side rule (tables as generated but [t_park_requires_request_sent = false]) the
+    automaton does attach a request to a connection that sits in the middle of another request's body:
+    H2 client, request with a body, backend answers completely on the head, the response is written,
+    the next request on the connection is linked to the parked backend connection. *)
+Definition tables_without_request_rule : tables :=
+  let T := gen_tables in
+  mkT (t_esd T) (t_connect T) (t_redirect_fallback T) (t_ft T) (t_bt T) (t_end_arm T) (t_default_effs T) (t_force_effs T)
+      (t_known_codes T) (t_retries T) (t_guard_ge T) (t_rearm_after_write T) (t_rearm_delay_close T) (t_rearm_wait T)
+      (t_rearm_backend_wait T) (t_h1_close_after_close T) (t_h1_close_if_request_open T) (t_h1_head_gate T)
+      (t_park_requires_terminated T) false (t_close_waits_behind_interim T).
+Example park_rules_needed :
+  let h := [IReqHeadBody; IConnect None; IReqSent; IBackHead; IBackEnd; IFrontWrite true; IReqHead; IConnect None] in
+  existsb is_crosstalk (run tables_without_request_rule None (fresh, init_conn true) h) = true
+  /\ existsb is_crosstalk (run gen_tables None (fresh, init_conn true) h) = false.
+Proof. vm_compute. split; reflexivity. Qed.
 
 (** 4. bounded_wait (invariant form): after any history a live session has its
     frontend timer armed, and whatever is queued and sendable has WRITABLE armed
